@@ -23,14 +23,31 @@ def export_item(item):
                 graphs.append((name, b.subregion))
         for rname, g in graphs:
             try:
-                l = list(g.concealed_region_view)
+                v = g.concealed_region_view
+                l = list(v)
                 q.append([60, ids[rname], len(l)] + [ids[x] for x in l])
+                # a view is a mapping: every way of enumerating it, and enumerating it again, must
+                # give what the first pass gave (compared with the model above)
+                again = {"second pass": list(v), "keys()": list(v.keys()), "items()": [k_ for k_, _ in v.items()],
+                         "values()": [b_.name for b_ in v.values()], "third pass": list(v)}
+                if len(v) != len(l):
+                    again["len()"] = None
+                for what, l2 in again.items():
+                    if l2 != l:
+                        meta["errors"].append({"stage": k, "graph_of": rname, "what": "concealed_region_view",
+                                               "error": "%s gives %r, the first pass gave %r" % (what, l2, l)})
+                        break
+                if any(x not in v for x in l) or any(v[x].name != x for x in l):
+                    meta["errors"].append({"stage": k, "graph_of": rname, "what": "concealed_region_view",
+                                           "error": "membership / lookup disagrees with iteration"})
             except Exception as e:
                 meta["errors"].append({"stage": k, "graph_of": rname, "what": "concealed_region_view",
                                        "error": repr(e)[:200]})
         try:
             l = [name for name, _ in scfg]
             q.append([61, len(l)] + [ids[x] for x in l])
+            if [name for name, _ in scfg] != l:
+                meta["errors"].append({"stage": k, "what": "__iter__", "error": "a second pass gives something else"})
         except Exception as e:
             meta["errors"].append({"stage": k, "what": "__iter__", "error": repr(e)[:200]})
         texts.append("#%d\n" % k + "\n".join(" ".join(map(str, r)) for r in [[116]] + rows + q) + "\n0\n")
